@@ -233,6 +233,13 @@ func (d *Deriv) mutatedBy(a ssa.Value, out rootSet, seen map[ssa.Value]bool) {
 			}
 		case ssa.CallInstruction:
 			com := r.Common()
+			if b, isB := com.Value.(*ssa.Builtin); isB {
+				// only copy(dst, src) writes into an argument
+				if b.Name() == "copy" && len(com.Args) == 2 && com.Args[0] == a {
+					d.walk(com.Args[1], out, seen)
+				}
+				continue
+			}
 			for _, arg := range com.Args {
 				if arg != a {
 					d.walk(arg, out, seen)
